@@ -1,6 +1,6 @@
 use std::sync::LazyLock;
 
-use chrono::{Datelike, Duration, Local, LocalResult, NaiveDate, NaiveDateTime, TimeZone, Timelike};
+use chrono::{Duration, Local, LocalResult, NaiveDate, NaiveDateTime, TimeZone, Timelike};
 use chrono_english::{parse_date_string, Dialect};
 use regex::Regex;
 
@@ -114,21 +114,14 @@ pub fn parse_datetime(s: &str) -> Result<(NaiveDateTime, NaiveDateTime), String>
     }
 }
 
-pub fn to_local_datetime(dt: &zip::DateTime) -> NaiveDateTime {
-    Local::now()
-        .naive_local()
-        .with_year(dt.year() as i32)
-        .unwrap()
-        .with_month(dt.month() as u32)
-        .unwrap()
-        .with_day(dt.day() as u32)
-        .unwrap()
-        .with_hour(dt.hour() as u32)
-        .unwrap()
-        .with_minute(dt.minute() as u32)
-        .unwrap()
-        .with_second(dt.second() as u32)
-        .unwrap()
+/// Converts the modification time stored in a zip entry. Returns `None` when the stored
+/// fields do not form a valid date and time.
+pub fn to_local_datetime(dt: &zip::DateTime) -> Option<NaiveDateTime> {
+    NaiveDate::from_ymd_opt(dt.year() as i32, dt.month() as u32, dt.day() as u32)?.and_hms_opt(
+        dt.hour() as u32,
+        dt.minute() as u32,
+        dt.second() as u32,
+    )
 }
 
 pub fn format_datetime(dt: &NaiveDateTime) -> String {
